@@ -18,6 +18,7 @@ type RetryTransaction struct {
 	retryCount    uint
 	retryNumMutex sync.Mutex
 	retryNum      uint
+	timerGen      uint       // generation of the current timer, guarded by retryNumMutex
 	timerMutex    sync.Mutex // guards timer
 	timer         *time.Timer
 	retryCallback RTRetryCallback
@@ -102,6 +103,8 @@ func (t *RetryTransaction) stopTimer() {
 }
 
 // restartTimer restarts the retry timer unless the transaction is done.
+//
+// You must acquire t.retryNumMutex before calling this function!
 func (t *RetryTransaction) restartTimer() {
 	t.timerMutex.Lock()
 	defer t.timerMutex.Unlock()
@@ -109,18 +112,22 @@ func (t *RetryTransaction) restartTimer() {
 	if t.timer != nil {
 		t.timer.Stop()
 	}
+	// A timer which has already fired cannot be stopped; the new generation
+	// number makes its timeout call a no-op.
+	t.timerGen++
 	if t.isDone() {
 		return
 	}
-	t.timer = time.AfterFunc(t.retryDelay, t.timeout)
+	gen := t.timerGen
+	t.timer = time.AfterFunc(t.retryDelay, func() { t.timeout(gen) })
 }
 
-func (t *RetryTransaction) timeout() {
+func (t *RetryTransaction) timeout(gen uint) {
 	t.retryNumMutex.Lock()
 	defer t.retryNumMutex.Unlock()
 
-	// Success or Fail may have been called after the timer fired.
-	if t.isDone() {
+	// Proceed, Success or Fail may have been called after the timer fired.
+	if gen != t.timerGen || t.isDone() {
 		return
 	}
 	t.retryNum++
